@@ -172,11 +172,20 @@ impl Features {
     }
 }
 
+/// One snapshot path per worker thread, deliberately NOT removed between uses: saving over an existing
+/// (often longer) file is ordinary usage and must replace it. Before its first use the file holds a long
+/// unrelated text.
 fn scratch_path() -> std::path::PathBuf {
-    use std::sync::atomic::{AtomicU64, Ordering};
-    static N: AtomicU64 = AtomicU64::new(0);
-    let dir = crate::engine::scratch_dir();
-    dir.join(format!("snap-{}-{}.json", std::process::id(), N.fetch_add(1, Ordering::Relaxed)))
+    thread_local! {
+        static PATH: std::path::PathBuf = {
+            use std::sync::atomic::{AtomicU64, Ordering};
+            static N: AtomicU64 = AtomicU64::new(0);
+            let p = crate::engine::scratch_dir().join(format!("snap-{}-{}.json", std::process::id(), N.fetch_add(1, Ordering::Relaxed)));
+            let _ = std::fs::write(&p, format!("{{{}}}", " ".repeat(60_000)));
+            p
+        };
+    }
+    PATH.with(|p| p.clone())
 }
 
 /// Serialise a book through one of the four documented routes and load it back.
@@ -187,11 +196,39 @@ pub fn reload_book(b: &dyn DynBook, how: u8) -> Result<Box<dyn DynBook>, String>
         h => {
             let p = scratch_path();
             b.save_json(&p, h == 3)?;
-            let r = book_from_file(b.levels(), &p);
-            let _ = std::fs::remove_file(&p);
-            r
+            book_from_file(b.levels(), &p)
         }
     }
+}
+
+/// Largest admissible volume (>= `min_vol`) for a new order / a volume increase of `vol` on side `bid`,
+/// keeping the history inside the properties' domain: per-side resting volume < 2^32 and cumulative traded
+/// volume (the counter since its last reset) < 2^32 at every moment. Computed from the observed pre-state,
+/// not from a running sum of everything ever created, so large volumes keep arriving as long as earlier ones
+/// traded away or were cancelled.
+///  * `own`      volume of the modified order that leaves the side first (0 for a new order)
+///  * `tradable` volume that will execute immediately (opposite resting volume the order's limit admits;
+///               0 when trading is off or the order is only created)
+///  * `rests`    false for market orders (their remainder is discarded)
+#[allow(clippy::too_many_arguments)]
+pub fn admissible_vol(orders: &[OrderRec], traded_ctr: u64, bid: bool, vol: u32, own: u64, tradable: u64, rests: bool, ops_left: usize, min_vol: u64) -> u32 {
+    let lim = (u32::MAX as u64 - 1).saturating_sub(ops_left as u64 + 4);
+    let live = |side: bool| -> u64 { orders.iter().filter(|o| o.bid == side && (o.status == St::Active || o.status == St::New)).map(|o| o.vol as u64).sum() };
+    let (same, opp) = (live(bid).saturating_sub(own), live(!bid));
+    let total = own + (vol as u64).max(min_vol);
+    // resting: same + total - min(total, tradable) <= lim
+    let mut max_total = if rests { (lim + tradable).saturating_sub(same) } else { u64::MAX };
+    // counter: traded + min(same + total, opp) <= lim   (invariant under trades)
+    if traded_ctr + opp > lim {
+        max_total = max_total.min(lim.saturating_sub(traded_ctr).saturating_sub(same));
+    }
+    let t = total.min(max_total).max(own + min_vol).min(u32::MAX as u64 - 1);
+    (t - own) as u32
+}
+
+/// Volume that an order of side `bid` with limit `price` would execute immediately against `orders`.
+pub fn tradable_now(orders: &[OrderRec], bid: bool, price: u32) -> u64 {
+    orders.iter().filter(|o| o.status == St::Active && o.bid != bid && if bid { o.price <= price } else { o.price >= price }).map(|o| o.vol as u64).sum()
 }
 
 /// The two price values that denote market orders (bid at 2^32-1, ask at 0) are not limit prices; a
@@ -276,29 +313,9 @@ impl<'a> Run<'a> {
         Failure::new(prop, sig, format!("step {} op {:?}: {}", step, op, msg))
     }
 
-    /// Largest admissible volume (>= 1) for a new order / a volume increase of `vol` on side `bid`,
-    /// keeping the history inside the properties' domain: per-side resting volume < 2^32 and
-    /// cumulative traded volume (the counter since its last reset) < 2^32 at every moment.
-    /// Computed from the observed pre-state, not from a running sum of everything ever created, so
-    /// large volumes keep arriving as long as earlier ones traded away or were cancelled.
-    ///  * `own`      volume of the modified order that leaves the side first (0 for a new order)
-    ///  * `tradable` volume that will execute immediately (opposite resting volume the order's limit
-    ///               admits; 0 when trading is off or the order is only created)
-    ///  * `rests`    false for market orders (their remainder is discarded)
     #[allow(clippy::too_many_arguments)]
     fn clamp_vol(&mut self, pre: &Obs, bid: bool, vol: u32, own: u64, tradable: u64, rests: bool, ops_left: usize) -> u32 {
-        let lim = (u32::MAX as u64 - 1).saturating_sub(ops_left as u64 + 4);
-        let live = |side: bool| -> u64 { pre.orders.iter().filter(|o| o.bid == side && (o.status == St::Active || o.status == St::New)).map(|o| o.vol as u64).sum() };
-        let (same, opp) = (live(bid).saturating_sub(own), live(!bid));
-        let total = own + vol.max(1) as u64;
-        // resting: same + total - min(total, tradable) <= lim
-        let mut max_total = if rests { (lim + tradable).saturating_sub(same) } else { u64::MAX };
-        // counter: traded + min(same + total, opp) <= lim   (invariant under trades)
-        if self.traded_ctr + opp > lim {
-            max_total = max_total.min(lim.saturating_sub(self.traded_ctr).saturating_sub(same));
-        }
-        let t = total.min(max_total).max(own + 1).min(u32::MAX as u64 - 1);
-        (t - own) as u32
+        admissible_vol(&pre.orders, self.traded_ctr, bid, vol, own, tradable, rests, ops_left, 1)
     }
 
     fn apply_all<F: Fn(&mut dyn DynBook)>(&mut self, f: F) {
@@ -335,8 +352,26 @@ impl<'a> Run<'a> {
     }
 }
 
+/// Largest clock value of a history: with clock discipline the interpreter must always be able to advance
+/// the clock by one before a placement that would tie, so the last 2^20 values stay unused; histories with
+/// ties may run the clock up to u64::MAX itself (and stay there).
+fn clock_cap(case: &BookCase) -> u64 {
+    if case.tie {
+        u64::MAX
+    } else {
+        u64::MAX - (1 << 20)
+    }
+}
+
 /// Execute a history with the configured oracles.
 pub fn run_book_case(case: &BookCase, orc: Oracles) -> (Features, Result<(), Failure>) {
+    let capped;
+    let case = if case.t0 > clock_cap(case) {
+        capped = BookCase { t0: clock_cap(case), ..case.clone() };
+        &capped
+    } else {
+        case
+    };
     let real = new_book(case.levels, case.t0, case.tick, case.trading);
     let model = if orc.model { Some(ModelBook::new(case.t0, case.tick, case.trading)) } else { None };
     let mut run = Run {
@@ -370,6 +405,13 @@ pub fn run_book_case(case: &BookCase, orc: Oracles) -> (Features, Result<(), Fai
 
 /// Execute a history without oracles and hand back the resulting real book.
 pub fn build_book(case: &BookCase) -> Box<dyn DynBook> {
+    let capped;
+    let case = if case.t0 > clock_cap(case) {
+        capped = BookCase { t0: clock_cap(case), ..case.clone() };
+        &capped
+    } else {
+        case
+    };
     let real = new_book(case.levels, case.t0, case.tick, case.trading);
     let mut run = Run {
         case,
@@ -665,7 +707,7 @@ impl<'a> Run<'a> {
             },
             Op::ModifyRel { .. } => unreachable!("harness: ModifyRel is made concrete above"),
             Op::Advance(dt) => {
-                let t = self.now.saturating_add(*dt).min(u64::MAX - (1 << 20));
+                let t = self.now.saturating_add(*dt).min(clock_cap(self.case));
                 self.set_time(t);
                 expect_noop = true;
             }
